@@ -50,6 +50,28 @@ def tbb_model(tr, fid, info, e, args, obj):
     name = {"FnI": "verif_tbb_for_FnI", "FnSz": "verif_tbb_for_FnSz"}.get(tr.record_cname(fty.name) if fty.kind == "rec" else "")
     if name is None:
         from astload import ExtractionBreak
+        n = args[2]
+        while n.get("kind") in ("ImplicitCastExpr", "ParenExpr", "ExprWithCleanups", "MaterializeTemporaryExpr", "CXXBindTemporaryExpr", "CXXFunctionalCastExpr", "CXXConstructExpr") and n.get("inner"):
+            n = n["inner"][0]
+        it = tr.ety(args[0]).noref()
+        if n.get("kind") == "LambdaExpr" and it.kind == "builtin":
+            # a wrapper lambda handed to TBB: the same ASSUMED executor (every index of [first,last) once), running the lambda's own
+            # call operator as extracted from /repo
+            callop = tr.ast.E[n["id"]]["callop"]
+            ccall = tr.request(callop)
+            CL = tr.record_cname(fty.name)
+            T = tr.ctype(it)
+            ex = "verif_tbb_exec_" + ccall
+            tr.stdlib.text["tbbexec:" + ccall] = (
+                "extern long g_k; extern unsigned long g_hits, g_calls;\n"
+                "void %s(%s first, %s last, %s *cl)\n{ for (%s i = first; i < last; i++) __CPROVER_assigns(i, g_hits, g_calls) "
+                "__CPROVER_loop_invariant(first <= i && (i <= last || last < first) && g_calls == __CPROVER_loop_entry(g_calls) + (unsigned long)(i - first) && "
+                "g_hits == __CPROVER_loop_entry(g_hits) + (g_k >= 0 && (%s)g_k >= first && (%s)g_k < i && (long)(%s)g_k == g_k)) __CPROVER_decreases(last - i) { %s(cl, i); } }\n"
+                % (ex, T, T, CL, T, T, T, T, ccall))
+            tr.rule("tbb::parallel_for over a wrapper lambda -> assumed executor model")
+            tr.cur.calls[ex] = True
+            tr.cur.calls[ccall] = True
+            return X("call", ex, [tr.rv(args[0]), tr.rv(args[1]), tr.bind_ref(args[2])], ty=parse_type("void"))
         raise ExtractionBreak("tbb::parallel_for over '%s' has no model in this unit" % fty.key())
     tr.rule("tbb::parallel_for -> assumed executor model")
     tr.cur.calls[name] = True
